@@ -45,7 +45,9 @@ def llgo_env(ctx, extra=None):
     e["LLGO_ROOT"] = REPO
     e["CCFLAGS"] = "-I%s -mllvm -opaque-pointers" % os.path.join(sh, "include")
     e["LDFLAGS"] = "-L%s" % os.path.join(sh, "lib")
-    e["XDG_CACHE_HOME"] = os.path.join(d, "xdg")
+    e["XDG_CACHE_HOME"] = os.path.join(d, "xdg")       # llgo's package-archive cache: private per check run
+    # ... but the Go build cache (content addressed, so never stale) stays shared: otherwise every run re-exports std (~60 s)
+    e["GOCACHE"] = os.environ.get("GOCACHE") or os.path.join(os.path.expanduser("~"), ".cache", "go-build")
     e["TMPDIR"] = os.path.join(d, "tmp")
     if extra:
         e.update(extra)
